@@ -204,3 +204,15 @@ Definition certs_need_tls (i : rinst) : Prop := ri_use_certs i = true -> ri_use_
    under identity only: for GET the reference client is "the correct client" of the matrix only there) *)
 Definition get_ok (c : rcase) : Prop :=
   rc_get c = true -> rc_protocol c = PConnect /\ rc_stream c = StUnary /\ rc_compression c = ZIdentity.
+
+(* ---------- 6. the feedback line (property text: "reports feedback naming the test case"; mechanism:
+   per-aspect checks writing `test name: message` to stderr) ---------- *)
+(* the line about a message for test `name`: the name's own bytes, whatever they are, then ": ", then the
+   message, ended by a newline (not doubled when the message brings its own) *)
+Definition ends_with_newline (m : bytes) : bool := (last m 0 =? 10)%N.
+Definition feedback_line (name msg : bytes) : bytes :=
+  name ++ [58; 32]%N ++ msg ++ (if ends_with_newline msg then [] else [10%N]).
+(* names the runner can tell apart on the reading end: it splits a line at the first ": " and trims it, so the
+   name must not contain ": " and must not begin with white space (the shipped suites: `Suite Name/case-name`) *)
+Definition no_colon_space (name : bytes) : Prop := forall x y, name <> x ++ 58%N :: 32%N :: y.
+Definition starts_visibly (name : bytes) : Prop := exists c rest, name = c :: rest /\ is_ascii_space c = false.
